@@ -34,6 +34,20 @@ def built(model, route='A'):
     return fm, fails
 
 
+class ModelMutatedByLibrary(Exception):
+    """The model object no longer has the content it was built with although only library calls
+    that must not modify it were made (reported as a violation, never a machinery error)."""
+
+
+def checked_edit(fm, edit, model, em, what):
+    """Apply an in-place edit of the harness to a real model whose expected content is `model`."""
+    if bd.observe(fm) != model:
+        raise ModelMutatedByLibrary('before the edit "%s" the model was %s instead of %s' % (what, _safe_str(bd.observe(fm)), sh.model_str(model)))
+    edit(fm)
+    if bd.observe(fm) != em:
+        raise AssertionError('in-place edit did not give the expected model: %s' % what)
+
+
 def _safe_str(ob):
     try:
         return sh.model_str(ob)
